@@ -22,10 +22,15 @@ Regenerates  coq/Gen/Footprint.v  from a fresh build of the CURRENT working tree
      library_shared_writable; restricted to the members the probe link pulled in ->
      codec_members_writable (the cheap, member-granular constness scan).
 
+Self-test on every run: a canary object (one global, one static array, one function-local static,
+one thread_local) is linked in and must be classified exactly (shared / TLS), and the import table
+must be readable — otherwise exit 3, so a toolchain format change cannot silently yield "empty".
+
 The file is written only when its content changes (so `make` does not rebuild needlessly).
 A JSON copy of everything (with timings) goes to .cache/work/footprint.json for props/C19.py.
+With DRACO_REPO=<scratch tree> the outputs go to that tree's private dirs (.cache/coq-<h>/Gen, .cache/work-<h>).
 
-usage: tools/footprint.py [--out coq/Gen/Footprint.v] [--json <path>] [--quiet]
+usage: tools/footprint.py [--out <coq dir>/Gen/Footprint.v] [--json <path>] [--quiet]
 exit 0 = generated (whatever the content); exit 3 = build/link/parse failure (nothing written).
 """
 import argparse
@@ -39,6 +44,11 @@ import time
 
 ROOT = os.path.dirname(os.path.dirname(os.path.abspath(__file__)))
 REPO = os.environ.get("DRACO_REPO", "/repo")
+# scratch trees (DRACO_REPO=...) get their own work dir and their own copy of the Coq development
+# (lib/vcheck.py exports VERIF_COQ_DIR); same naming as lib/vcheck.py so one `rm -rf .cache/*-<hash>*` cleans up.
+_H = hashlib.md5((REPO + "\n").encode()).hexdigest()[:8]
+WORK = os.path.join(ROOT, ".cache", "work" if REPO == "/repo" else "work-" + _H)
+COQ = os.environ.get("VERIF_COQ_DIR") or (os.path.join(ROOT, "coq") if REPO == "/repo" else os.path.join(ROOT, ".cache", "coq-" + _H))
 
 # libc / libstdc++ entry points with hidden process-global mutable state (calling them from two
 # threads is a race or cross-talk even though the caller owns all its arguments).
@@ -198,6 +208,8 @@ def origin_kind(origin, libpath, probe_obj):
         return "draco", m.group(2)
     if os.path.basename(origin) == os.path.basename(probe_obj):
         return "probe", os.path.basename(origin)
+    if os.path.basename(origin) == "footprint_canary.o":
+        return "canary", os.path.basename(origin)
     return "toolchain", os.path.basename(origin)
 
 
@@ -208,21 +220,35 @@ def analyse(quiet=False):
     libdir = out.strip().splitlines()[-1]
     lib = os.path.join(libdir, "libdraco.a")
     t_build = time.time() - t0
-    work = os.path.join(ROOT, ".cache", "work", "footprint" + ("" if REPO == "/repo" else "-" + hashlib.md5((REPO + "\n").encode()).hexdigest()[:8]))
+    work = os.path.join(WORK, "footprint")
     os.makedirs(work, exist_ok=True)
+    import fcntl
+    lock = open(os.path.join(work, "lock"), "w")   # two checks may run at once (held until exit)
+    fcntl.flock(lock, fcntl.LOCK_EX)
+    analyse._lock = lock
     probe_src = os.path.join(ROOT, "harness", "probe_C19.cc")
     obj = os.path.join(work, "probe_C19.o")
     exe = os.path.join(work, "probe_C19")
     mapf = os.path.join(work, "probe_C19.map")
-    for f in (obj, exe, mapf):
+    # self-test canary: an object with one shared-writable and one thread-local cell, kept by --undefined.
+    # The scan below must find exactly these (else the parsing is broken and an empty footprint would mean nothing).
+    can_src = os.path.join(work, "footprint_canary.cc")
+    can_obj = os.path.join(work, "footprint_canary.o")
+    open(can_src, "w").write(
+        "int verif_canary_cell = 0;\nthread_local int verif_canary_tls = 0;\n"
+        "static int verif_canary_local[4];\n"
+        "extern \"C\" int verif_canary_touch(int i) { static int calls; verif_canary_local[i & 3]++; "
+        "return ++verif_canary_cell + ++verif_canary_tls + ++calls; }\n")
+    for f in (obj, exe, mapf, can_obj):
         if os.path.exists(f):
             os.remove(f)
     t1 = time.time()
     must(["g++", "-std=c++17", "-O1", "-DNDEBUG", "-DDRACO_VERIF", "-ffunction-sections", "-fdata-sections",
           "-I" + os.path.join(REPO, "src"), "-I" + libdir, "-c", probe_src, "-o", obj],
          "compiling the link probe against the current tree")
-    must(["g++", obj, lib, "-lpthread", "-Wl,--gc-sections", "-Wl,-Map=" + mapf, "-o", exe],
-         "linking the probe with --gc-sections")
+    must(["g++", "-std=c++17", "-O1", "-ffunction-sections", "-fdata-sections", "-c", can_src, "-o", can_obj], "compiling the canary")
+    must(["g++", obj, can_obj, lib, "-lpthread", "-Wl,--gc-sections", "-Wl,--undefined=verif_canary_touch",
+          "-Wl,-Map=" + mapf, "-o", exe], "linking the probe with --gc-sections")
     t_link = time.time() - t1
 
     # ---- linked image
@@ -266,6 +292,7 @@ def analyse(quiet=False):
         return None, None, None
 
     codec_shared, codec_tool, codec_tls = [], [], []
+    canary = {"shared": set(), "tls": set()}
     covered = set()
     for (name, addr, size, cls, osn) in sorted(syms, key=lambda x: (x[1], x[0])):
         if typ_of.get((name, addr)) == "NOTYPE" and size == 0:
@@ -279,6 +306,9 @@ def analyse(quiet=False):
             covered.add(ca)
         d = dm.get(name, name)
         label = "%s [%s] @ %s" % (d, osn, who)
+        if kind == "canary":
+            canary[cls].add(d)
+            continue
         if cls == "tls":
             (codec_tls if kind != "toolchain" and not is_toolchain_name(d) else codec_tool).append(label + (" (thread-local)" if kind == "toolchain" or is_toolchain_name(d) else ""))
         elif kind == "toolchain" or is_toolchain_name(d):
@@ -288,7 +318,7 @@ def analyse(quiet=False):
     # writable contributions of draco/probe origin that no symbol names (anonymous data)
     for (a, sz, sn, org, cls, osn) in wcon:
         kind, who = origin_kind(org, lib, obj)
-        if kind == "toolchain" or a in covered:
+        if kind in ("toolchain", "canary") or a in covered:
             continue
         label = "<no symbol> %s (%d bytes) [%s] @ %s" % (sn, sz, osn, who)
         if re.search(r"_ZStL8__ioinit|_ZGVNSt|_ZNSt|\.DW\.ref\.", sn):
@@ -298,6 +328,11 @@ def analyse(quiet=False):
         else:
             codec_shared.append(label)
 
+    want_sh = {"verif_canary_cell", "verif_canary_local", "verif_canary_touch::calls"}
+    if not (want_sh <= canary["shared"]) or "verif_canary_tls" not in canary["tls"] or "verif_canary_tls" in canary["shared"]:
+        raise Fail("self-test failed: the writable-data scan did not classify the canary cells correctly "
+                   "(found shared=%s tls=%s); toolchain output format changed?" % (sorted(canary["shared"]), sorted(canary["tls"])))
+
     # ---- imported functions with hidden state
     dyn = must(["readelf", "--dyn-syms", "-W", exe], "readelf --dyn-syms")
     imports = set()
@@ -305,6 +340,8 @@ def analyse(quiet=False):
         m = SYM_RE.match(line)
         if m and m.group(7) == "UND" and m.group(8):
             imports.add(m.group(8).split("@")[0].split(" ")[0])
+    if "__libc_start_main" not in imports or len(imports) < 10:
+        raise Fail("self-test failed: could not read the import table of the linked probe (%d imports)" % len(imports))
     hidden = sorted(imports & HIDDEN_STATE)
     locale_reads = sorted(imports & LOCALE_READS)
     # attribution (information only): which pulled-in members reference them
@@ -375,6 +412,7 @@ def analyse(quiet=False):
         "archive_members_total": len(arch),
         "image_writable_sections": {s[0]: s[3] for (s, cls) in wsecs.values()},
         "imports_total": len(imports),
+        "selftest_canary": {"shared": sorted(canary["shared"]), "tls": sorted(canary["tls"])},
         "timing_s": {"repo_build": round(t_build, 2), "probe_compile_link": round(t_link, 2), "archive_scan": round(t_arch, 2)},
     }
     return res
@@ -422,8 +460,8 @@ def render(res):
 
 def main():
     ap = argparse.ArgumentParser()
-    ap.add_argument("--out", default=os.path.join(ROOT, "coq", "Gen", "Footprint.v"))
-    ap.add_argument("--json", default=os.path.join(ROOT, ".cache", "work", "footprint.json"))
+    ap.add_argument("--out", default=os.path.join(COQ, "Gen", "Footprint.v"))
+    ap.add_argument("--json", default=os.path.join(WORK, "footprint.json"))
     ap.add_argument("--quiet", action="store_true")
     a = ap.parse_args()
     try:
